@@ -184,6 +184,10 @@ def gen_case(rng, kind="field"):
         if name not in ("truediv", "floordiv"):
             f_idx = 3 if name == "pow" else 0
             ops.append({"op": "bins", "name": name, "f": f_idx, "c": gen_scalar(rng, "rpow" if name == "pow" else name, dt), "rev": True})
+    ops.append({"op": "unite", "f": 0, "g": 1})
+    ops.append({"op": "flexible_addsub", "f": 0, "g": 1, "neg": True})
+    ops.append({"op": "flexible_addsub", "f": 1, "g": 0, "neg": False})
+    ops.append({"op": "unite", "f": 0, "g": 4, "bad": "domain"})
     ops.append({"op": "scale", "f": 0, "c": ["1", "0", "i"]})
     ops.append({"op": "scale", "f": 0, "c": ["1", "0", "f"]})
     ops.append({"op": "scale", "f": 0, "c": gen_scalar(rng, "mul", dt)})
@@ -306,6 +310,17 @@ def gen_mcase(rng):
     for a, b in ((0, 1), (1, 0), (0, 0)):
         ops.append({"op": "ms_vdot", "a": a, "b": b})
     ops.append({"op": "ms_sum", "a": 0})
+    ops.append({"op": "msize", "a": 0})
+    for a in (0, 1, 3):
+        ops.append({"op": "ms_all", "a": a})
+        ops.append({"op": "ms_any", "a": a})
+    ops.append({"op": "mvdot", "a": 0, "b": 1})
+    ops.append({"op": "mvdot", "a": 0, "b": 4, "bad": "domain"})
+    # unite / flexible_addsub: same MultiDomain, other key sets (key union), one leaf on another domain (rejected)
+    for b in (1, 5, 4):
+        ops.append({"op": "mflex", "a": 0, "b": b, "neg": False, "unite": True})
+        ops.append({"op": "mflex", "a": 0, "b": b, "neg": True})
+        ops.append({"op": "mflex", "a": b, "b": 0, "neg": rng.random() < 0.5})
     for o in (1, 2, "inf"):
         ops.append({"op": "mnorm", "a": 0, "ord": o})
         ops.append({"op": "mnorm", "a": 1, "ord": o})
@@ -472,6 +487,12 @@ def expected_numpy(built, op):
         return ("value", r, list(range(n)))
     if name == "scale":
         return ("value", L.py_scalar(op["c"]) * a, list(range(n)))
+    if name in ("unite", "flexible_addsub"):
+        g = built.fields[op["g"]]
+        if g.domain is not dom:
+            return ("raises",)
+        b = built.arrays[op["g"]]
+        return ("value", a - b if op.get("neg") else a + b, list(range(n)))
     return None
 
 
@@ -481,7 +502,24 @@ def expected_multi(built, op):
     A = built.mfields[op["a"]]
     keys = list(A.keys())
     arrs = {k: A[k].val.asnumpy() for k in keys}
-    if name in ("mbin", "ms_vdot"):
+    if name == "mflex":
+        B = built.mfields[op["b"]]
+        sign = -1 if op.get("neg") else 1
+        out = {k: arrs[k] for k in keys}
+        for k in B.keys():
+            if k in out:
+                if B[k].domain is not A[k].domain:
+                    return ("raises",)
+                out[k] = out[k] + sign * B[k].val.asnumpy()
+            else:
+                out[k] = sign * B[k].val.asnumpy()
+        return ("mvalue", {k: out[k] for k in sorted(out)})
+    if name in ("ms_all", "ms_any"):
+        fn = all if name == "ms_all" else any
+        return ("value", fn(bool(getattr(arrs[k], name[3:])()) for k in keys), None)
+    if name == "msize":
+        return ("value", sum(arrs[k].size for k in keys), None)
+    if name in ("mbin", "ms_vdot", "mvdot"):
         B = built.mfields[op["b"]]
         if B.domain is not A.domain:
             return ("raises",)
@@ -503,7 +541,7 @@ def expected_multi(built, op):
             return None
         fnu = {"neg": lambda a: -a, "abs": np.abs, "conjugate": np.conj, "real": lambda a: a.real, "imag": lambda a: a.imag}[u]
         return ("mvalue", {k: fnu(arrs[k]) for k in keys})
-    if name == "ms_vdot":
+    if name in ("ms_vdot", "mvdot"):
         return ("value", sum(np.vdot(arrs[k], barrs[k]) for k in keys), None)
     if name == "ms_sum":
         return ("value", sum(arrs[k].sum() for k in keys), None)
@@ -558,10 +596,13 @@ def check_op(built, op):
         for k, v in exp[1].items():
             if not _allclose(res[k].val.asnumpy(), v):
                 return (f"{label}: leaf '{k}' differs from the key-wise array operation", dict(sig, kind="value"))
-            if res[k].domain is not built.mfields[op["a"]][k].domain:
+            src = built.mfields[op["a"]] if k in built.mfields[op["a"]] else built.mfields[op["b"]]
+            if res[k].domain is not src[k].domain:
                 return (f"{label}: leaf '{k}' changed its domain", dict(sig, kind="domain"))
         return None
     val, kept = exp[1], exp[2]
+    if res is None or isinstance(res, ift.MultiField):
+        return (f"{label}: returned {type(res).__name__} where a value is expected", dict(sig, kind="type"))
     if isinstance(res, ift.Field):
         got = res.val.asnumpy()
         if kept is not None:
@@ -574,7 +615,11 @@ def check_op(built, op):
         return None
     if np.max(np.abs(np.asarray(val, dtype=np.complex128)), initial=0.0) > 2.0 ** 50:
         return None
-    if not _allclose(got.reshape(np.asarray(val).shape) if got.size == np.asarray(val).size else got, val):
+    try:
+        same = _allclose(got.reshape(np.asarray(val).shape) if got.size == np.asarray(val).size else got, val)
+    except Exception:  # noqa: BLE001 - a result that cannot even be compared with an array is a wrong result
+        same = False
+    if not same:
         return (f"{label} differs from the NumPy computation with the domain's volume factors",
                 dict(sig, kind="value", dtype=("m" if multi else built.case["fields"][op["f"]]["dt"])))
     return None
